@@ -20,15 +20,6 @@ import (
 	vk "github.com/daeuniverse/dae/verifkit"
 )
 
-const (
-	c03ActOK       = 0
-	c03ActShot     = 2
-	c03ActPipe     = 3
-	c03ActRedirect = 7
-	c03Dae0Ifindex = 77
-	c03DaePid      = 4321
-)
-
 type c03Flow struct {
 	dec       vk.RDecision
 	hasDec    bool
@@ -43,21 +34,21 @@ type c03Cookie struct {
 }
 
 type c03World struct {
-	t       *testing.T
-	m       *vk.Monitor
-	r       *rand.Rand
-	ks      [3]*vk.KS
-	prog    *vk.RProg
-	built   *verifBuilt
-	domains map[netip.Addr]string
-	dead    map[uint32]bool // connectivity keys (Go formula) currently down
-	now     uint64
-	flows   map[string]*c03Flow
-	cookies map[uint64]c03Cookie
-	sockMark uint32
-	hist    []string // textual history (witness)
+	t                     *testing.T
+	m                     *vk.Monitor
+	r                     *rand.Rand
+	ks                    [3]*vk.KS
+	prog                  *vk.RProg
+	built                 *verifBuilt
+	domains               map[netip.Addr]string
+	dead                  map[uint32]bool // connectivity keys (Go formula) currently down
+	now                   uint64
+	flows                 map[string]*c03Flow
+	cookies               map[uint64]c03Cookie
+	sockMark              uint32
+	hist                  []string // textual history (witness)
 	lastConn, lastHandoff []byte
-	failed  bool
+	failed                bool
 }
 
 var c03ModeNames = [3]string{"kernel-pull", "force-fast", "force-slow"}
@@ -165,18 +156,6 @@ func (w *c03World) setDomain(a netip.Addr, d string) {
 	w.log("DOMAIN %v -> %q", a, d)
 }
 
-func c03NetworkType(udp bool, v6 bool) *dialer.NetworkType {
-	nt := &dialer.NetworkType{L4Proto: consts.L4ProtoStr_TCP, IpVersion: consts.IpVersionStr_4}
-	if udp {
-		nt.L4Proto = consts.L4ProtoStr_UDP
-		nt.UdpHealthDomain = dialer.UdpHealthDomainData
-	}
-	if v6 {
-		nt.IpVersion = consts.IpVersionStr_6
-	}
-	return nt
-}
-
 func (w *c03World) setAlive(outbound uint8, udp, v6, alive bool) {
 	key := outboundConnectivityMapKey(outbound, c03NetworkType(udp, v6))
 	v := uint32(0)
@@ -244,10 +223,10 @@ func (w *c03World) advance(ns uint64) {
 // ---- frames ----------------------------------------------------------------
 
 type c03Step struct {
-	hook   uint8 // L2 hook id; L3 variant chosen from the frame
-	f      vk.Frame
-	cookie uint64
-	mark   uint32
+	hook      uint8 // L2 hook id; L3 variant chosen from the frame
+	f         vk.Frame
+	cookie    uint64
+	mark      uint32
 	ingressIf uint32
 }
 
@@ -409,12 +388,12 @@ func (w *c03World) decide(f *vk.Frame, wan bool, cookie uint64) vk.RDecision {
 }
 
 type c03Expect struct {
-	judge    bool
-	class    string // "ok", "shot", "redirect"
-	markOK   bool   // check skb->mark == mark (LAN direct)
-	mark     uint32
-	rec      *bpfRoutingResult
-	why      string
+	judge  bool
+	class  string // "ok", "shot", "redirect"
+	markOK bool   // check skb->mark == mark (LAN direct)
+	mark   uint32
+	rec    *bpfRoutingResult
+	why    string
 }
 
 func (w *c03World) verdict(dec vk.RDecision, f *vk.Frame, wan bool, cookie uint64) c03Expect {
